@@ -41,6 +41,63 @@ def tags_of(name):
     return sorted(set(re.findall(r"\bC\d\d\b", name)))
 
 
+def _pyval(v):
+    try:
+        if z3.is_int_value(v):
+            return v.as_long()
+        if z3.is_rational_value(v):
+            return float(v.numerator_as_long()) / float(v.denominator_as_long())
+        if z3.is_true(v):
+            return True
+        if z3.is_false(v):
+            return False
+        if z3.is_bv_value(v):
+            return v.as_long()
+        if z3.is_string_value(v):
+            return v.as_string()
+        if z3.is_algebraic_value(v):
+            return float(v.approx(12).as_decimal(12).rstrip("?"))
+    except Exception:
+        pass
+    return str(v)
+
+
+def generic_extract(task, ob, m):
+    """pre-state of the receiver (two levels deep), parameters and ghost globals, read off the counter-model"""
+    from .sorts import RefSort, Ref, null
+    ctx = task.ctx
+    out = {"params": {}, "globals": {}, "self": {}}
+    for n, v in task.old_locals.items():
+        if isinstance(v, V) and len(v.comps) == 1 and n != "self":
+            out["params"][n] = _pyval(m.eval(v.comps[0], True))
+
+    def fields_of(cls, ref, depth):
+        res = {}
+        for c in ctx.mro(cls):
+            for f, sort in ctx.classes.get(c, {}).get("fields", {}).items():
+                if sort == "py" or len(sort.comps()) != 1:
+                    continue
+                arr = z3.Const(f"H.{c}.{f}.0!0", z3.ArraySort(Ref, sort.comps()[0]))
+                val = m.eval(z3.Select(arr, ref), True)
+                if isinstance(sort, RefSort):
+                    isnull = z3.is_true(m.eval(val == null, True))
+                    if isnull:
+                        res[f] = None
+                    elif depth > 0 and sort.cls in ctx.classes:
+                        res[f] = {"ref": str(val), "fields": fields_of(sort.cls, val, depth - 1)}
+                    else:
+                        res[f] = {"ref": str(val)}
+                else:
+                    res[f] = _pyval(val)
+        return res
+    if task.receiver and "self" in task.old_locals:
+        out["self"] = fields_of(task.receiver, task.old_locals["self"].z, 1)
+    for g, sort in ctx.globals.items():
+        if len(sort.comps()) == 1:
+            out["globals"][g] = _pyval(m.eval(z3.Const(f"G.{g}.0!0", sort.comps()[0]), True))
+    return out
+
+
 def _run_task(args):
     """executed in a worker process"""
     mods, cname, receiver, opts = args
@@ -73,6 +130,10 @@ def _run_task(args):
                 rec["model"] = solve.model_to_dict(ob.model) if ob.model is not None else {}
                 rec["goal"] = str(ob.goal)[:2000]
                 if ob.model is not None:
+                    try:
+                        rec["extract"] = generic_extract(task, ob, ob.model)
+                    except Exception as e:
+                        rec.setdefault("extract_errors", []).append(repr(e))
                     for h in hooks:
                         if h:
                             try:
